@@ -25,3 +25,9 @@ const (
 	IngressPodName      = "ingress-controller"
 	IngressPodNamespace = "ingress-controller-ns"
 )
+
+// IsIngressControllerPlaceholder returns true if the given name and namespace are those of the placeholder pod representing
+// the ingress-controller; a real workload may be named ingress-controller too, so the name alone does not identify it
+func IsIngressControllerPlaceholder(name, namespace string) bool {
+	return name == IngressPodName && namespace == IngressPodNamespace
+}
